@@ -326,6 +326,11 @@ func (e *Engine) hfSig(ct *FuncContract) (params []types.Type, names []string, r
 			params = append(params, p.Type())
 			names = append(names, p.Name())
 		}
+		// a closure: the cells it captures are arguments too (two instances are different functions)
+		for _, fv := range fn.FreeVars {
+			params = append(params, fv.Type())
+			names = append(names, fv.Name())
+		}
 		return params, names, fn.Signature.Results(), nil
 	}
 	it, m := e.ifaceMethod(ct.Key)
@@ -535,8 +540,10 @@ func (e *Engine) ghostWriters(arr string) map[string]bool {
 			}
 		}
 		for _, n := range ct.ModAll {
-			if scratch.resolveHeapName(n, ct.Pkg) == arr {
-				hit = true
+			for _, hn := range scratch.resolveHeapNames(n, ct.Pkg) {
+				if hn == arr {
+					hit = true
+				}
 			}
 		}
 		if hit {
